@@ -3,7 +3,7 @@
    qt_loopaccum_balance_inner compute, as regenerated from src/qloop.c by tools/ctrans.py on every run (Gen/Qloop.v).
    Theorems only; proofs in Gen/Tie_Qloop.v. *)
 From Coq Require Import ZArith List.
-From QV Require Import Gen.CInt Gen.Qloop Gen.Tie_Qloop Loops.Model.
+From QV Require Import Gen.CInt Gen.Qloop Gen.Tie_Qloop Gen.Tie_QloopCursor Loops.Model.
 Local Open Scope Z_scope.
 
 (* qwa[k].startat / qwa[k].stopat written by qt_loop_balance_inner = k-th pair of Model.split; maxworkers agrees *)
@@ -29,3 +29,49 @@ Theorem gen_c12_loopaccum_balance_split :
                    (sa' k, so' k) = nth (Z.to_nat k) (split start stop nw) (0, 0).
 Proof. exact tie_loopaccum_balance_split. Qed.
 Print Assumptions gen_c12_loopaccum_balance_split.
+
+(* ---- queue-loop cursors (the qqloop_get_iterations functions): the arithmetic between the shared accesses; CAS / fetch-add are
+   oracle parameters and the theorems say with which arguments they are called *)
+Theorem gen_c12_guided_claim :
+  forall (p : params) (cas : Z -> Z -> Z) (ret : Z),
+    0 <= ret <= p_stop p -> p_stop p < B62 -> 0 < p_sheps p < 65536 ->
+    qq_guided_claim cas ret (p_sheps p) (p_stop p) = Some (guided_it p ret, cas ret (ret + guided_it p ret)).
+Proof. exact tie_guided_claim. Qed.
+Print Assumptions gen_c12_guided_claim.
+
+Theorem gen_c12_factored_phase :
+  forall (p : params) (cas : Z -> Z -> Z) (ret ph : Z),
+    0 <= ret <= p_stop p -> p_stop p < B62 -> 0 < p_sheps p < 65536 ->
+    qq_factored_phase cas ph ret (p_sheps p) (p_stop p) = Some (cas ph (fact_target p ret ph)).
+Proof. exact tie_factored_phase. Qed.
+Print Assumptions gen_c12_factored_phase.
+
+Theorem gen_c12_factored_claim :
+  forall (p : params) (cas : Z -> Z -> Z) (ret ph : Z),
+    0 <= ret <= p_stop p -> 0 <= ph <= p_stop p -> p_stop p < B62 -> 0 < p_sheps p < 65536 ->
+    qq_factored_claim cas ph ret (p_sheps p) (p_stop p) = Some (fact_it p ph, cas ret (ret + fact_it p ph)).
+Proof. exact tie_factored_claim. Qed.
+Print Assumptions gen_c12_factored_claim.
+
+(* chunked: the range handed out after the fetch-add returned cur1 is the claim of the model's C_faa step at cur1 *)
+Theorem gen_c12_chunked :
+  forall (p : params) (ph : Z) (lb : Z -> Z) (fst_ : bool) (shep cur0 cur1 : Z),
+    cur0 < p_stop p -> 0 <= cur1 -> 0 <= cur0 -> p_stop p < B62 -> cur1 < B62 -> 0 <= p_chunk p < B62 ->
+    qq_chunked (fun _ => cur1) cur0 (p_step p) (p_stop p) (p_chunk p)
+    = Some (match option_map e_claim (tstep p false cur1 ph lb (mkT C_faa fst_ shep)) with
+            | Some (Some (lo, hi)) => (lo, hi, 1)
+            | _ => (0, 0, 0)
+            end).
+Proof. exact tie_chunked. Qed.
+Print Assumptions gen_c12_chunked.
+
+(* timed: the block size (slow-path formula, clamp to the end) and the arguments of the CAS on iq->start *)
+Theorem gen_c12_timed_block :
+  forall (p : params) (cas : Z -> Z -> Z) (ls db : Z) (slow : bool),
+    0 <= ls <= p_stop p -> p_stop p < B62 -> 0 < p_sheps p < 65536 -> 0 < p_step p < 2147483648 -> 0 <= db < B62 ->
+    match (if slow then qq_timed_slow ls (p_step p) (p_stop p) (p_sheps p) else Some db) with
+    | Some d => qq_timed_claim cas d ls (p_stop p)
+    | None => None
+    end = Some (timed_block p ls db slow, cas ls (ls + timed_block p ls db slow)).
+Proof. exact tie_timed_block. Qed.
+Print Assumptions gen_c12_timed_block.
